@@ -28,14 +28,14 @@ theorem gexcl_tail (s s' : S) (pc : TPc) (h : GExcl s) (hs : stepTail s pc = som
 theorem gexcl_closer (s s' : S) (pc : CPc) (h : GExcl s) (hs : stepCloser s pc = some s') : GExcl s' := by
   obtain ⟨x1, x2, x3, x4, d1⟩ := h
   cases pc <;> simp only [stepCloser] at hs <;> (repeat' split at hs) <;> (try cases hs) <;>
-    constructor <;> simp only [lwA, spawnP] at * <;> grind
+    constructor <;> simp only [lwA, spawnP, enterDrained] at * <;> grind
 
 theorem gexcl_step (s s' : S) (a : Act) (h : GExcl s) (hs : step s a = some s') : GExcl s' := by
   cases a with
   | add n =>
     obtain ⟨x1, x2, x3, x4, d1⟩ := h
     simp only [step] at hs; cases hs
-    constructor <;> simp_all [lwA, spawnP, tally_snoc, aSpawn, aRun]
+    constructor <;> simp_all [lwA, spawnP, tally_snoc]
   | close =>
     obtain ⟨x1, x2, x3, x4, d1⟩ := h
     simp only [step] at hs; cases hs
